@@ -17,6 +17,7 @@ TxAB2 == <<97,98,32,32,61,32,32,58,118>>            \* "ab  =  :v"    (repeated 
 TxAB3 == <<32,97,98,32,61,32,58,118,32>>            \* " ab = :v "    (surrounding blanks)
 TxAB4 == <<97,98,10,61,9,58,118,13,10>>             \* "ab\n=\t:v\r\n"  (line breaks and tabs are blanks too)
 UxAB3 == <<83,69,84,10,97,98,9,61,32,58,118>>       \* "SET\nab\t= :v"
+TxABu == <<65,66,32,61,32,58,118>>                  \* "AB = :v"   another attribute: names are case-sensitive
 TxOther == <<97,98,32,60,62,32,58,118>>             \* "ab <> :v"
 KxH   == <<104,32,61,32,58,118>>                   \* "h = :v"       (as key condition and as filter)
 UxAB  == <<83,69,84,32,97,98,32,61,32,58,118>>      \* "SET ab = :v"
@@ -25,6 +26,7 @@ UxBA  == <<83,69,84,32,98,97,32,61,32,58,118>>      \* "SET ba = :v"  (anagram)
 CAB == Cmp("=", Path("ab"), Val(":v"))
 CBA == Cmp("=", Path("ba"), Val(":v"))
 COther == Cmp("<>", Path("ab"), Val(":v"))
+CABu == Cmp("=", Path("AB"), Val(":v"))
 VX == One(":v", S1(120))
 Item == [h |-> S1(97), ab |-> S1(120), ba |-> S1(121)]
 Key == [h |-> S1(97)]
@@ -43,7 +45,7 @@ VA == One(":v", S1(97))
 QueryT(t) == QueryOp("c1", t, NoIndex, CH, NoFilter, <<>>, VA, TRUE) @@ [kctext |-> KxH]
 ScanH(t) == ScanOp("c1", t, NoIndex, Cond(CH), <<>>, VA) @@ [filtertext |-> KxH]
 Requests ==
-     { PutT(t, x[1], x[2]) : t \in {TA, TB}, x \in { <<CAB, TxAB>>, <<CBA, TxBA>>, <<CAB, TxAB2>>, <<CAB, TxAB3>>, <<CAB, TxAB4>>, <<COther, TxOther>> } }
+     { PutT(t, x[1], x[2]) : t \in {TA, TB}, x \in { <<CAB, TxAB>>, <<CBA, TxBA>>, <<CAB, TxAB2>>, <<CAB, TxAB3>>, <<CAB, TxAB4>>, <<CABu, TxABu>>, <<COther, TxOther>> } }
   \cup { DelT(TA, CAB, TxAB), DelT(TA, CBA, TxBA) }
   \cup { UpdT(t, SetU("ab", Val(":v")), x) : t \in {TA, TB}, x \in {UxAB, UxAB2, UxAB3} } \cup { UpdT(TA, SetU("ba", Val(":v")), UxBA) }
   \cup { ScanT(TA, CAB, TxAB), ScanT(TA, CBA, TxBA), ScanT(TB, CAB, TxAB), ScanT(TA, CAB, TxAB2), ScanT(TA, CAB, TxAB4) }
